@@ -114,7 +114,7 @@ func runProperty(P *Prog, pd *propDef, tier, verif string, list bool, repo strin
 			}
 		}()
 		pd.Run(r)
-		if tier == "thorough" && pd.Thorough != nil && os.Getenv("HAQQCHECK_NESTED") == "" {
+		if pd.Thorough != nil && ((tier == "thorough" && os.Getenv("HAQQCHECK_NESTED") == "") || os.Getenv("HAQQCHECK_WHOLE") != "") {
 			pd.Thorough(r)
 		}
 		if tier == "thorough" {
